@@ -349,7 +349,12 @@ class GreedySpan:
             # span will have multiple starting points, contract these
             o_nodes = list(region)
             o_inputs = [inputs[i] for i in o_nodes]
-            o_ssa_path = ssa_greedy_optimize(o_inputs, output, size_dict)
+            # n.b. need a purely pairwise path here, so no single term
+            # simplification steps (relative to the full network, the output
+            # nodes generally do have indices that appear nowhere else)
+            o_ssa_path = ssa_greedy_optimize(
+                o_inputs, output, size_dict, simplify=False
+            )
             seq = []
             for pi, pj in o_ssa_path:
                 merges[o_nodes[pi]] = o_nodes[pj]
